@@ -188,9 +188,13 @@ func Ref(req *dns.Msg) (resp *dns.Msg, mode Mode) {
 		resp.Rcode = dns.RcodeNameError
 		resp.Ns = []dns.RR{soa()}
 	case KLarge:
-		n := []int{10, 24, 80}[int(h>>4)%3]
+		// Sizes are deliberately unaligned and spread around the 512, 1232
+		// and 4096 octet limits (one record is 70-110 octets).
+		n := []int{4, 5, 6, 7, 8, 10, 13, 16, 24, 48, 80}[int(h>>4)%11]
 		for i := 0; i < n; i++ {
-			resp.Answer = append(resp.Answer, refRR(q.Name, dns.TypeTXT, q.Qclass, h, i, true))
+			rr := refRR(q.Name, dns.TypeTXT, q.Qclass, h, i, true).(*dns.TXT)
+			rr.Txt[len(rr.Txt)-1] = strings.Repeat("p", 20+int(h>>9+uint32(i)*5)%41)
+			resp.Answer = append(resp.Answer, rr)
 		}
 	case KRefused:
 		resp.Rcode = dns.RcodeRefused
@@ -351,6 +355,24 @@ func (c *Case) Classes() []string {
 		cl = append(cl, "req-edns")
 	}
 
+	if c.ReqPadding && c.ReqKeepalive {
+		cl = append(cl, "req-padding+keepalive")
+	}
+
+	if c.Req != nil && len(c.Req.Question) == 1 {
+		switch n := c.Req.Question[0].Name; {
+		case n == ".":
+			cl = append(cl, "root-name")
+		case dns.CountLabel(n) == 1:
+			cl = append(cl, "one-label-name")
+		}
+	}
+
+	switch len(c.Wire) {
+	case 511, 512, 513, 1023, 1024, 1025:
+		cl = append(cl, fmt.Sprintf("query-size-%d", len(c.Wire)))
+	}
+
 	if c.ReqPadding {
 		cl = append(cl, "req-padding")
 	}
@@ -401,6 +423,10 @@ func (tr Transport) Named(n string) Transport {
 	return tr
 }
 
+// DNSCryptMinQuery is the smallest query the DNSCrypt layer hands over
+// (dnscrypt's minDNSPacketSize: header plus a root-name question).
+const DNSCryptMinQuery = 12 + 5
+
 // ExpectKind is what must come back.
 type ExpectKind int
 
@@ -420,41 +446,44 @@ const (
 var ExpectNames = [...]string{"must-reply", "no-message", "servfail-or-none"}
 
 // Expect returns the documented treatment of c on tr.
-func (c *Case) Expect(tr Transport) (k ExpectKind, want *dns.Msg) {
+func (c *Case) Expect(tr Transport) (k ExpectKind, want *dns.Msg, loose bool) {
 	if c.Verdict == VUndecodable {
-		return NoMessage, nil
+		return NoMessage, nil, false
 	}
 
 	if tr.DoQ && c.ReqKeepalive {
 		// RFC 9250, 4.3 (5): fatal protocol error.
-		return NoMessage, nil
+		return NoMessage, nil, false
 	}
 
-	if tr.DNSCrypt && (c.Req.Response || len(c.Req.Question) != 1) {
+	if tr.DNSCrypt && (c.Req.Response || len(c.Req.Question) != 1 || len(c.Wire) < DNSCryptMinQuery) {
 		// The DNSCrypt layer drops these before the handler.
-		return NoMessage, nil
+		return NoMessage, nil, false
 	}
 
 	switch c.Verdict {
 	case VResponse:
 		if tr.DoQ {
-			return ReplyOrNone, ErrReply(c.Req, dns.RcodeServerFailure)
+			return ReplyOrNone, ErrReply(c.Req, dns.RcodeServerFailure), true
 		}
 
-		return NoMessage, nil
+		return NoMessage, nil, false
 	case VNotImp, VFormErr:
-		return MustReply, c.Want
+		return MustReply, c.Want, true
 	}
 
 	if c.Mode == ModeSilent {
 		if tr.DoQ || tr.DNSCrypt {
-			return ReplyOrNone, ErrReply(c.Req, dns.RcodeServerFailure)
+			// Pinned by the doc comments in serveQUICStream ("Make sure that at
+			// least some response has been written") and dnsCryptHandler.ServeDNS
+			// ("If there was no response from the handler, return SERVFAIL").
+			return MustReply, ErrReply(c.Req, dns.RcodeServerFailure), true
 		}
 
-		return NoMessage, nil
+		return NoMessage, nil, false
 	}
 
-	return MustReply, c.Want
+	return MustReply, c.Want, c.Loose
 }
 
 // ---------------------------------------------------------------------------
@@ -743,7 +772,7 @@ func Frames(b []byte) (msgs [][]byte, err error) {
 // Judge compares what came back on tr with the documented treatment of c.
 // full is the canonical form of a complete (non-truncated) answer, "" if none.
 func Judge(tr Transport, c *Case, r Result, o CheckOpts) (full string, classes []string, err error) {
-	kind, want := c.Expect(tr)
+	kind, want, loose := c.Expect(tr)
 	classes = []string{tr.Name + ":" + ExpectNames[kind]}
 	if len(r.Msgs) > 1 {
 		return "", classes, fmt.Errorf("%d DNS messages came back for one input", len(r.Msgs))
@@ -795,12 +824,20 @@ func Judge(tr Transport, c *Case, r Result, o CheckOpts) (full string, classes [
 		return "", classes, fmt.Errorf("no DNS message came back (%s); the pipeline produced %v", r.Treatment, want)
 	}
 
-	if err = CheckReply(tr, c, want, got, c.Loose, o); err != nil {
+	if err = CheckReply(tr, c, want, got, loose, o); err != nil {
 		return "", classes, err
 	}
 
 	if got.Truncated {
 		classes = append(classes, "truncated-on-"+tr.Name)
+
+		return "", classes, nil
+	}
+
+	if loose && !c.Loose {
+		// A transport-specific fallback (the pipeline produced nothing): not
+		// part of the cross-transport comparison.
+		classes = append(classes, tr.Name+":fallback-servfail")
 
 		return "", classes, nil
 	}
@@ -978,7 +1015,12 @@ func mixCase(t *rapid.T, s string) string {
 // DrawName draws a fully qualified name.  kind < 0 leaves the kind to the
 // hash.
 func DrawName(t *rapid.T, kind int) string {
-	shape := rapid.SampledFrom([]string{"short", "short", "short", "deep", "maxlabel", "maxname"}).Draw(t, "nameShape")
+	shape := rapid.SampledFrom([]string{"short", "short", "short", "short", "deep", "deep", "maxlabel", "maxname", "minimal"}).Draw(t, "nameShape")
+	if shape == "minimal" {
+		// The root, a one-letter TLD, a TLD: the smallest legal questions.
+		return mixCase(t, rapid.SampledFrom([]string{".", ".", "a.", "k.", "test.", "k7.", "k5."}).Draw(t, "minimalName"))
+	}
+
 	first := rapid.SampledFrom(labelAlphabet).Draw(t, "label0")
 	if kind >= 0 {
 		first = fmt.Sprintf("k%d", kind)
@@ -1027,7 +1069,21 @@ func DrawKind(t *rapid.T) int {
 }
 
 func drawOptions(t *rapid.T) (opts []dns.EDNS0) {
-	n := rapid.SampledFrom([]int{0, 0, 1, 1, 2, 3}).Draw(t, "nOpts")
+	n := rapid.SampledFrom([]int{0, 0, 1, 1, 2, 3, -1}).Draw(t, "nOpts")
+	if n < 0 {
+		// keep-alive and padding together, in either order, plus an echoed one.
+		opts = []dns.EDNS0{
+			&dns.EDNS0_TCP_KEEPALIVE{Code: dns.EDNS0TCPKEEPALIVE},
+			&dns.EDNS0_PADDING{Padding: make([]byte, rapid.SampledFrom([]int{0, 3, 33}).Draw(t, "padLen2"))},
+			&dns.EDNS0_NSID{Code: dns.EDNS0NSID},
+		}
+		if rapid.Bool().Draw(t, "optOrder") {
+			opts[0], opts[1] = opts[1], opts[0]
+		}
+
+		return opts
+	}
+
 	for i := 0; i < n; i++ {
 		switch rapid.SampledFrom([]string{"padding", "padding", "keepalive", "nsid", "cookie", "ecs", "ede", "local", "expire"}).Draw(t, "opt") {
 		case "padding":
@@ -1055,7 +1111,7 @@ func drawOptions(t *rapid.T) (opts []dns.EDNS0) {
 // DrawQuery draws a well-formed, acceptable single-question query.
 func DrawQuery(t *rapid.T) *dns.Msg {
 	m := &dns.Msg{}
-	m.Id = uint16(rapid.IntRange(0, 65535).Draw(t, "id"))
+	m.Id = uint16(rapid.OneOf(rapid.SampledFrom([]int{0, 0, 1, 65535}), rapid.IntRange(0, 65535), rapid.IntRange(0, 65535)).Draw(t, "id"))
 	m.RecursionDesired = rapid.IntRange(0, 3).Draw(t, "rd") != 0
 	m.AuthenticatedData = rapid.IntRange(0, 3).Draw(t, "ad") == 0
 	m.CheckingDisabled = rapid.IntRange(0, 3).Draw(t, "cd") == 0
@@ -1105,9 +1161,151 @@ func DrawQuery(t *rapid.T) *dns.Msg {
 
 		opt.Option = drawOptions(t)
 		m.Extra = append(m.Extra, opt)
+
+		// Queries of exactly limit-1, limit, limit+1 octets for the 512-octet
+		// UDP / TCP receive buffers (and 1024 for the DNSCrypt domain bound).
+		if target := rapid.SampledFrom([]int{0, 0, 0, 0, 0, 511, 512, 513, 1023, 1024, 1025}).Draw(t, "sizeTarget"); target > 0 {
+			if need := target - m.Len() - 4; need >= 0 {
+				opt.Option = append(opt.Option, &dns.EDNS0_PADDING{Padding: make([]byte, need)})
+			}
+		}
 	}
 
 	return m
+}
+
+// DrawNearMiss derives from base a query that differs in exactly one component
+// the server must distinguish (or in nothing but the ID).
+func DrawNearMiss(t *rapid.T, base *dns.Msg) (m *dns.Msg, what string) {
+	m = base.Copy()
+	what = rapid.SampledFrom([]string{"case", "case", "qtype", "qclass", "label", "kind", "id-only", "same-id-qtype", "rd", "cd", "edns", "do", "verbatim"}).Draw(t, "nearMiss")
+	q := &m.Question[0]
+	if what != "same-id-qtype" && what != "verbatim" {
+		m.Id = base.Id + uint16(rapid.SampledFrom([]int{1, 256, 65535}).Draw(t, "idDelta"))
+	}
+
+	switch what {
+	case "case":
+		b := []byte(q.Name)
+		var letters []int
+		for i, c := range b {
+			if c >= 'a' && c <= 'z' || c >= 'A' && c <= 'Z' {
+				letters = append(letters, i)
+			}
+		}
+
+		if len(letters) > 0 {
+			b[letters[rapid.IntRange(0, len(letters)-1).Draw(t, "caseAt")]] ^= 0x20
+			q.Name = string(b)
+		}
+	case "qtype", "same-id-qtype":
+		if q.Qtype == dns.TypeA {
+			q.Qtype = dns.TypeAAAA
+		} else {
+			q.Qtype = dns.TypeA
+		}
+	case "qclass":
+		if q.Qclass == dns.ClassINET {
+			q.Qclass = dns.ClassCHAOS
+		} else {
+			q.Qclass = dns.ClassINET
+		}
+	case "label":
+		// One more / one different label sharing the prefix; never longer than
+		// the original so that maximal names stay legal.
+		if len(q.Name) > 3 && len(q.Name) < 250 && strings.IndexByte(q.Name, '.') < 63 {
+			q.Name = "x" + q.Name
+		} else if len(q.Name) > 1 {
+			b := []byte(q.Name)
+			if b[len(b)-2] == 'y' {
+				b[len(b)-2] = 'z'
+			} else {
+				b[len(b)-2] = 'y'
+			}
+
+			q.Name = string(b)
+		} else {
+			q.Name = "x."
+		}
+	case "kind":
+		// Same shape, another answer kind (big after small, error after
+		// answer, ...).
+		k := rapid.IntRange(0, int(NKinds)-1).Draw(t, "otherKind")
+		q.Name = fmt.Sprintf("k%d.near.test.", k)
+	case "rd":
+		m.RecursionDesired = !m.RecursionDesired
+	case "cd":
+		m.CheckingDisabled = !m.CheckingDisabled
+	case "edns":
+		if opt := m.IsEdns0(); opt != nil {
+			m.Extra = m.Extra[:len(m.Extra)-1]
+		} else {
+			m.SetEdns0(1232, false)
+		}
+	case "do":
+		if opt := m.IsEdns0(); opt != nil {
+			opt.Hdr.Ttl ^= 1 << 15
+		} else {
+			m.SetEdns0(4096, true)
+		}
+	}
+
+	return m, what
+}
+
+// DrawBurst draws k near misses of base with pairwise distinct IDs (except the
+// kinds whose point is the shared ID).
+func DrawBurst(t *rapid.T, base *dns.Msg, k int) (ms []*dns.Msg, whats []string) {
+	for i := 0; i < k; i++ {
+		m, what := DrawNearMiss(t, base)
+		if m.Id != base.Id {
+			m.Id = base.Id + uint16(1+i)
+		}
+
+		ms = append(ms, m)
+		whats = append(whats, what)
+	}
+
+	return ms, whats
+}
+
+// MatchReplies pairs the messages received for several pipelined inputs with
+// the inputs: every reply must be judged acceptable (by judge) for a distinct
+// input, and every input that must be answered must have got one.  judge
+// returns nil if msg is the documented answer to case i.
+func MatchReplies(n int, replies [][]byte, mustReply func(i int) bool, judge func(i int, msg []byte) error) error {
+	used := make([]bool, n)
+	for ri, msg := range replies {
+		var errs []string
+		found := false
+		for i := 0; i < n && !found; i++ {
+			if used[i] || !mustReply(i) {
+				continue
+			}
+
+			if err := judge(i, msg); err != nil {
+				if !strings.Contains(err.Error(), "response ID") {
+					errs = append(errs, fmt.Sprintf("input %d: %v", i+1, err))
+				}
+
+				continue
+			}
+
+			used[i], found = true, true
+		}
+
+		if !found {
+			return fmt.Errorf("reply %d of %d (%x) answers none of the still unanswered inputs (mismatches other than the ID: %q)", ri+1, len(replies), msg, errs)
+		}
+	}
+
+	for i := 0; i < n; i++ {
+		if mustReply(i) && !used[i] {
+			return fmt.Errorf("input %d of %d got no reply (%d replies in all)", i+1, n, len(replies))
+		}
+	}
+
+	return nil
 }
 
 // DrawStructuredBad turns base into a message that is well-formed on the wire
